@@ -8,6 +8,8 @@ drv_unparse: line-protocol driver of the unparser model.
   chunks   <ruleset> <indent> <tree>          number of chunks of phase 1 and final Indentator level
   tailsafe <ruleset> <indent> <tree>          the hypotheses of ends_with_one_newline_partial on this tree:
                                               OK <tailSafe T|F> <tokensCleanB T|F>
+  treeok   <ruleset> <indent> <tree>          tree-level hypotheses of the C20 theorems:
+                                              OK <valAll lineSafe T|F> <valAll braceFree T|F> <no Case/Default T|F>
   rulesets                                    the rule set ids
 
 <ruleset>  id of Gen.Rules.ruleSets; <indent> = N (None) or an encoded string ('…);
@@ -97,6 +99,11 @@ def handle (line : String) : String :=
             let b := tokensCleanB cs
             "OK " ++ (if a then "T" else "F") ++ " " ++ (if b then "T" else "F")
           | .error e => errStr e
+      else if cmd == "treeok" then
+        withTree rest fun tree =>
+          let b (x : Bool) := if x then "T" else "F"
+          "OK " ++ b (valAll lineSafe anyStr tree) ++ " " ++ b (valAll braceFree anyStr tree) ++ " " ++
+            b (valAll anyStr notCaseKind tree)
       else if cmd == "unparseR" then
         match Val.parse rest with
         | some (names, rest') =>
